@@ -133,3 +133,5 @@ def run(ctx):
     cancellation.check(ctx, ctx.crate("rel"), ['nested::cone_coverage_approx', 'nested::cone_coverage_approx_custom', 'nested::cone_coverage_approx_flat', 'nested::Layer::cone_coverage_approx', 'nested::Layer::cone_coverage_approx_custom'], floor=69)
     from rules import controls
     controls.haversine_controls(ctx)
+    from rules.cone import lowering_shifts
+    lowering_shifts(ctx, ctx.crate("rel"))
